@@ -38,8 +38,10 @@ fn c13_aborted_search_cache_is_sound() {
             }
             b.unmake_move();
         }
-        let start_n = 1 + seed % 13;
-        for n in (start_n..900u64).step_by(29) {
+        let step: usize = std::env::var("VERIF_C13_STEP").ok().and_then(|s| s.parse().ok()).unwrap_or(29);
+        let upto: u64 = std::env::var("VERIF_C13_UPTO").ok().and_then(|s| s.parse().ok()).unwrap_or(900);
+        let start_n = 1 + seed % (step.min(13) as u64);
+        for n in (start_n..upto).step_by(step) {
             clear();
             let mut s = Search::new(&root, Some(SearchLimits::new().nodes(Some(n))));
             s.start();
@@ -59,6 +61,62 @@ fn c13_aborted_search_cache_is_sound() {
                             "C13: go nodes {n} from {fen}: cache holds {:?} {} at depth {} for key {}, an uninterrupted search of that position gives {}",
                             e.bound, e.score, e.depth, p.zkey, truth);
                     }
+                }
+            }
+        }
+    }
+    clear();
+}
+
+/// C13, whole cache: like the test above, but EVERY entry left behind by a node-limited search whose position lies within three
+/// plies of the root (four for the sparsest root) is compared with an uninterrupted search of that position to that depth,
+/// for a dense sweep of node budgets (a cut inside a re-search or deep in the principal variation leaves its mark far from the root)
+#[test]
+fn c13_every_cached_entry_is_sound() {
+    use std::collections::HashMap;
+    let seed = std::env::var("VERIF_SEED").ok().and_then(|s| s.parse::<u64>().ok()).unwrap_or(0);
+    let thorough = std::env::var("VERIF_TIER").map(|t| t == "thorough").unwrap_or(false);
+    let roots: [(&str, usize); 3] = [
+        ("4q1bk/6b1/7p/p1p4p/PNPpP2P/KN4P1/3Q4/4R3 b - - 0 37", 3),
+        ("8/2p5/3p4/KP5r/1R3p1k/8/4P1P1/8 w - - 0 1", 4),
+        ("6k1/5ppp/8/8/1b6/8/r2N1PPP/4R1K1 w - - 0 1", 3),
+    ];
+    fn walk(b: &mut Board, left: usize, out: &mut HashMap<crate::board::zkey::ZKey, Board>) {
+        out.entry(b.zkey).or_insert_with(|| b.clone());
+        if left == 0 { return; }
+        for m in b.get_legal_moves() { b.make_move(m); walk(b, left - 1, out); b.unmake_move(); }
+    }
+    for (fen, plies) in roots.iter() {
+        let root = Board::from_fen(fen);
+        let mut near: HashMap<crate::board::zkey::ZKey, Board> = HashMap::new();
+        walk(&mut root.clone(), *plies, &mut near);
+        // size of the uninterrupted depth-3 search: budgets beyond it cut nothing
+        clear();
+        let mut full = Search::new(&root, None);
+        full.start();
+        let t0 = Instant::now();
+        for d in 1..=3 { full.alpha_beta_start(&SimpleEvaluator, d, t0); }
+        let total = full.info.nodes;
+        let step = if thorough { 3 } else { 11 };
+        let mut truth_cache: HashMap<(crate::board::zkey::ZKey, Depth), Score> = HashMap::new();
+        for n in ((1 + seed % step)..total).step_by(step as usize) {
+            clear();
+            let mut s = Search::new(&root, Some(SearchLimits::new().nodes(Some(n))));
+            s.start();
+            let start = Instant::now();
+            for d in 1..=3 {
+                s.alpha_beta_start(&SimpleEvaluator, d, start);
+                if !s.is_running() || s.limits_exceeded(start) { break; }
+            }
+            let snapshot: Vec<(crate::board::zkey::ZKey, TTEntry)> = TRANSPOSITION_TABLE.read().unwrap().iter().map(|(k, v)| (*k, *v)).collect();
+            for (k, e) in snapshot.iter() {
+                if is_mate(e.score) { continue; }
+                if let Some(p) = near.get(k) {
+                    let truth = *truth_cache.entry((*k, e.depth)).or_insert_with(|| fresh_value(p, e.depth));
+                    let consistent = match e.bound { Bounds::Exact => truth == e.score, Bounds::Lower => truth >= e.score, Bounds::Upper => truth <= e.score };
+                    assert!(consistent || is_mate(truth),
+                        "C13: go nodes {n} from {fen}: cache holds {:?} {} at depth {} for key {}, an uninterrupted search of that position gives {}",
+                        e.bound, e.score, e.depth, k, truth);
                 }
             }
         }
